@@ -29,26 +29,28 @@ func lost(format string, args ...any) { panic(anchorLost{fmt.Sprintf(format, arg
 
 // Ctx is the loaded program plus everything derived from it that the rules share.
 type Ctx struct {
-	Repo      string
-	GOOS      string
-	Tier      string
-	Depth     int // inlining depth of the slicer
-	Pkgs      []*packages.Package
-	Prog      *ssa.Program
-	Fset      *token.FileSet
-	CG        *callgraph.Graph
-	ModFuncs  []*ssa.Function          // every function of the module (methods, closures, init)
-	byName    map[string]*ssa.Function // fn.String() -> fn for module functions
-	SSAPkgs   map[string]*ssa.Package  // import path -> ssa package (module only)
-	TypPkgs   map[string]*packages.Package
-	fnCache   map[*ssa.Function]*fnInfo
-	effects   *effectIndex
-	allFuncs  map[*ssa.Function]bool
-	origOf    map[ssa.Instruction]ssa.Instruction // canonical (cloned) instruction -> original instruction
-	calleeIx  map[ssa.CallInstruction][]*ssa.Function
-	callerIx  map[*ssa.Function][]ssa.CallInstruction
-	canon     *canonStats
-	ephemeral map[string]bool
+	Repo           string
+	GOOS           string
+	Tier           string
+	Depth          int // inlining depth of the slicer
+	Pkgs           []*packages.Package
+	Prog           *ssa.Program
+	Fset           *token.FileSet
+	CG             *callgraph.Graph
+	ModFuncs       []*ssa.Function          // every function of the module (methods, closures, init)
+	byName         map[string]*ssa.Function // fn.String() -> fn for module functions
+	SSAPkgs        map[string]*ssa.Package  // import path -> ssa package (module only)
+	TypPkgs        map[string]*packages.Package
+	fnCache        map[*ssa.Function]*fnInfo
+	effects        *effectIndex
+	allFuncs       map[*ssa.Function]bool
+	origOf         map[ssa.Instruction]ssa.Instruction // canonical (cloned) instruction -> original instruction
+	calleeIx       map[ssa.CallInstruction][]*ssa.Function
+	callerIx       map[*ssa.Function][]ssa.CallInstruction
+	canon          *canonStats
+	ephemeral      map[string]bool
+	tableCallsDone bool
+	tableCallSites []string
 }
 
 func load(repo, goos, tier string) (*Ctx, error) {
